@@ -441,6 +441,11 @@ def z2_misc(F, R, M, roles):
                         and derives_from(c[0], lambda x: x[0] == 'call' and x[2].endswith('from_le_bytes'))]
                 if not subs or not cmpc:
                     good = False
+                # ... on the *equal* edge of that comparison
+                for c_ in cmpc:
+                    truth = (c_[1][0] == 'notin' and 0 in c_[1][1]) or (c_[1][0] == 'in' and 0 not in c_[1][1])
+                    if (c_[0][1] == 'Eq') != truth:
+                        good = False
             R.check(good, 'Z2', '9p:size-prefix', fn_site(F, b['id']), 'Ok only if the little-endian size prefix equals the used length', '9P request returns Ok without comparing the size prefix with the used length')
         if b.get('impl_adt') == 'device::rng::VirtIORng' and b['name'] == 'request_entropy':
             sg = supergraph(F, b['id'], opaque=lambda t, bb: bb['id'] in roles, tag='c20m')
